@@ -354,6 +354,14 @@ def r5_slots(ctx, F, pid="C07"):
         sb = [x for x in w if x[0] == "superblocks"]
         ctx.check(rule, "overmount/vacates", any(".fs_idx" in x[1] and x[1] != "fs_idx" for x in sb) and any(x[1] == "fs_idx" for x in sb),
                   "insert_mount_locked does not vacate the slot of an over-mounted filesystem: writes %s" % [x[1] for x in sb], loc=b.loc())
+        # ... and vacates it BEFORE the new occupant is stored: with the same index (restore_mount over a mounted path) the
+        # other order would empty the slot that was just filled
+        new = [x for x in sb if x[1] == "fs_idx"]
+        vac = [x for x in sb if ".fs_idx" in x[1] and x[1] != "fs_idx"]
+        ok = bool(new) and bool(vac) and not any(b.can_reach(n[3].bb, va[3].bb) and n[3].bb != va[3].bb for n in new for va in vac)
+        ctx.check(rule, "overmount/vacate-then-fill", ok,
+                  "insert_mount_locked stores the new backend in its slot and vacates the over-mounted slot afterwards: when both indices are equal "
+                  "(restore_mount at a path that is already mounted with that index) the mount is left without a backend", loc=b.loc())
         return
     # ---- C14: mapping table coherence
     # (a) slot allocation: mount_with_id_mapping stores mappings[index] unconditionally before insert_mount_locked(.., index, ..)
